@@ -1,6 +1,7 @@
 import GnoVerif.Proofs.C18Arith
 import GnoVerif.Proofs.C18Cmp2
 import GnoVerif.Proofs.C18Parse
+import GnoVerif.Proofs.C18Slices
 /-!
 # C18 — coin-set arithmetic matches the multiset model
 
@@ -299,6 +300,30 @@ theorem isEqual_operands_unchanged (A B : Coins) (hA : Sorted A) (hB : Sorted B)
     (isEqualFull A B).2 = (A, B) :=
   isEqualFull_operands hA hB
 
+/-- `IsZero` on a strictly sorted set: the denoted function is identically 0. -/
+theorem isZero_spec (cs : Coins) (hs : Sorted cs) : isZero cs = true ↔ ∀ d, val cs d = 0 := by
+  simp only [isZero, List.all_eq_true, isZero_iff]
+  constructor
+  · intro h d
+    exact val_zero_of_all_zero (fun c hc => by rw [h c hc]; rfl) d
+  · intro h c hc
+    have := h c.denom
+    rw [val_of_mem hs hc] at this
+    apply BitVec.toInt_inj.mp
+    rw [this]; rfl
+
+/-- `IsAllPositive`: non-empty and every amount positive. -/
+theorem isAllPositive_spec (cs : Coins) :
+    isAllPositive cs = true ↔ cs ≠ [] ∧ ∀ c ∈ cs, 0 < c.amount.toInt := by
+  cases cs with
+  | nil => simp [isAllPositive]
+  | cons c cs => simp [isAllPositive, isPositive_iff]
+
+/-- `IsAnyNegative`: some amount negative. -/
+theorem isAnyNegative_spec (cs : Coins) :
+    isAnyNegative cs = true ↔ ∃ c ∈ cs, c.amount.toInt < 0 := by
+  simp [isAnyNegative, Coin.isNegative]
+
 /-! ## String / ParseCoins -/
 
 /-- Parsing the string form of a valid coin set returns the same set.  (`str` = `Coins.String`:
@@ -310,5 +335,46 @@ theorem parse_toString_roundtrip (cs : Coins) (h : Valid cs) : parseCoins (str c
 
 example : Valid [⟨dA, 5#64⟩, ⟨dB, maxAmt⟩] ∧
     str [⟨dA, 5#64⟩, ⟨dB, 7#64⟩] = [53, 97, 97, 97, 44, 55, 98, 98, 98] := by decide
+
+/-! ## operands are never modified (slice model, `Model/C18Slices.lean`)
+
+In the slice model — Go's `append`/`make`/`copy`/re-slicing over an explicit heap of backing
+arrays — none of `AddUnsafe`, `SubUnsafe`, `Add`, `Sub` writes into ANY allocation that existed
+before the call (whether it returns or panics): in particular both operands' backing arrays,
+including their spare capacity, are unchanged.  The slice model is tied to the real code by the
+correspondence run (the driver prints the operands as read back from the slice model's final
+heap, and cross-checks its result against the list model on every op); for the real code the
+clause itself is checked by the oracle's deep copy / compare. -/
+
+theorem operands_unchanged (h : Mem.Heap) (A B : Mem.Slice) (id : Nat) (hid : id < h.length) :
+    Mem.arr (Mem.addUnsafeH h A B).1 id = Mem.arr h id ∧
+    Mem.arr (Mem.subUnsafeH h A B).1 id = Mem.arr h id ∧
+    Mem.arr (Mem.addH h A B).1 id = Mem.arr h id ∧
+    Mem.arr (Mem.subH h A B).1 id = Mem.arr h id := by
+  refine ⟨?_, ?_, ?_, ?_⟩
+  · exact (Mem.addUnsafeH_pres A B (Nat.le_refl _)).2 id hid
+  · exact (Mem.subUnsafeH_pres A B (Nat.le_refl _)).2 id hid
+  · rw [Mem.addH, Mem.checkH_heap]; exact (Mem.addUnsafeH_pres A B (Nat.le_refl _)).2 id hid
+  · rw [Mem.subH, Mem.checkH_heap]; exact (Mem.subUnsafeH_pres A B (Nat.le_refl _)).2 id hid
+
+/-- …hence both operands read back the same after `Add` (likewise for the other three). -/
+theorem add_operands_read_unchanged (h : Mem.Heap) (A B : Mem.Slice)
+    (hA : A.id < h.length) (hB : B.id < h.length) :
+    Mem.read (Mem.addH h A B).1 A = Mem.read h A ∧ Mem.read (Mem.addH h A B).1 B = Mem.read h B :=
+  ⟨Mem.read_of_arr_eq (operands_unchanged h A B A.id hA).2.2.1,
+   Mem.read_of_arr_eq (operands_unchanged h A B B.id hB).2.2.1⟩
+
+example : let a := Mem.mkOperand [] [⟨dA, 0#64⟩, ⟨dB, 5#64⟩] 2
+    a.2.id < a.1.length ∧ Mem.read a.1 a.2 = [⟨dA, 0#64⟩, ⟨dB, 5#64⟩] := by decide
+
+/-- REGRESSION of the defect fixed by /repo commit 97032b3b5d: the OLD `removeZeroCoins`
+(`slices.Delete` in place), applied as `AddUnsafe` did to the tail `B[0:]` of the operand
+`B = {aaa:0, bbb:5}`, leaves the operand as `[{bbb 5} {"" 0}]` — the slice model can express
+the mutation, so `operands_unchanged` is not vacuous. -/
+theorem old_removeZero_mutates :
+    Mem.read (Mem.removeZeroOldH (Mem.mkOperand [] [⟨dA, 0#64⟩, ⟨dB, 5#64⟩] 0).1
+        ((Mem.mkOperand [] [⟨dA, 0#64⟩, ⟨dB, 5#64⟩] 0).2.from 0)).1
+      (Mem.mkOperand [] [⟨dA, 0#64⟩, ⟨dB, 5#64⟩] 0).2
+    = [⟨dB, 5#64⟩, Mem.zeroCoin] := by decide
 
 end GnoVerif.C18
